@@ -222,6 +222,17 @@ func jobC07(c *rt.Ctx) {
 			if (serr != nil) != wantRefuse || (serr == nil && len(sig) != 64) || (serr != nil && sig != nil) {
 				fail("Sign")
 			}
+			if !wantRefuse && l > 0 {
+				// the bytes are RFC 8032's for this very context: its length octet takes every value 1..255
+				// (37 = '%', 0 and 10 as bytes, ...), whatever the library's own verifier would agree to
+				vv := ref.Ctx
+				if hi == 1 {
+					vv = ref.Ph
+				}
+				if want := ref.Sign(seedOf(60), digest, vv, []byte(ctx)); !bytes.Equal(sig, want) {
+					fail("Sign-differs-from-RFC8032")
+				}
+			}
 			if l == 0 && hi == 0 {
 				c.Class("empty-ctx-is-pure")
 				if !bytes.Equal(sig, Sign(priv, digest)) || !Verify(pub, digest, sig) {
@@ -261,6 +272,31 @@ func jobC07(c *rt.Ctx) {
 				if bpv != nil || (berr != nil) != wantRefuse || (!wantRefuse && (!all || len(valid) != n)) || (wantRefuse && (all || valid != nil)) {
 					fail(fmt.Sprintf("VerifyBatch(n=%d)", n))
 				}
+			}
+		}
+	}
+	// context CONTENT: bytes that mean something to formatting, templating, C strings, UTF-8 or shells are
+	// just bytes here. Sign == RFC 8032 (model), the model's signature verifies, single and in a batch
+	c.Require("ctx-content")
+	specials := []string{"%", "%s", "%d%%", "100%", "%!s(MISSING)", "%v%v%v%v", "a%20b", "{{.}}", "${x}", "\x00", "\x00tail", "head\x00", "\n", "\r\n", "\xff\xfe", "\xc3\x28", "\"quoted\"", "back\\slash", "tab\there", strings.Repeat("%", 37), strings.Repeat("%x", 100)}
+	for si, sc := range specials {
+		for hi := 0; hi < 2; hi++ {
+			if !c.Take() {
+				continue
+			}
+			c.Class("ctx-content")
+			c.Distinct(fmt.Sprintf("ctxcontent %d %d", si, hi), true)
+			vs := variantSpec{ref.Ctx, sc}
+			if hi == 1 {
+				vs = variantSpec{ref.Ph, sc}
+			}
+			t := modelTriple(60, digest, vs)
+			sig, serr := priv.Sign(nil, digest, vs.opts(false))
+			ok, pv := implSingleOpts(t, vs, false)
+			_, valid, berr, bpv := implBatch(batchWith(t, 1, 5, vs), vs, false, rt.NewRng(c.Seed, "ctxc"))
+			c.Step(3)
+			if serr != nil || !bytes.Equal(sig, t.sig) || !ok || pv != nil || berr != nil || bpv != nil || len(valid) != 5 || !valid[1] || !valid[0] {
+				c.Violation(fmt.Sprintf("C07 ctx-content variant=%s", vs.v), fmt.Sprintf("context %q under %s: Sign err=%v equals RFC 8032: %v; RFC signature verifies: %v (panic %v); in a batch: %v (err %v)", sc, vs.v, serr, bytes.Equal(sig, t.sig), ok, pv, valid, berr), map[string]interface{}{"context": ref.Hex([]byte(sc)), "variant": vs.v.String()})
 			}
 		}
 	}
